@@ -109,8 +109,24 @@ def shard_header(shard):
             part["evals"] += 1
             part["distinct"] += 1
             instr = codec.make_instr(cls, ["reg", "int32"], [(0, 1), 5])
-            sub = Subroutine(instructions=[instr], app_id=app_id, netqasm_version=ver)
-            judge("direct", "app-id", sub, "vanilla", {"route": "direct", "header": "app_id", "app_id": app_id, "version": list(ver)}, part)
+            # three ways an app id reaches the header: constructor, property setter, instantiate()
+            for how in ("constructor", "setter", "instantiate"):
+                part["evals"] += 1
+                part["distinct"] += 1
+                case = {"route": "direct", "header": "app_id", "how": how, "app_id": app_id, "version": list(ver)}
+                try:
+                    if how == "constructor":
+                        sub = Subroutine(instructions=[instr], app_id=app_id, netqasm_version=ver)
+                    elif how == "setter":
+                        sub = Subroutine(instructions=[instr], app_id=1, netqasm_version=ver)
+                        sub.app_id = app_id
+                    else:
+                        sub = Subroutine(instructions=[instr], app_id=None, netqasm_version=ver)
+                        sub.instantiate(app_id, {})
+                except Exception:
+                    count(part, "rejected/direct/app-id")
+                    continue
+                judge("direct", "app-id", sub, "vanilla", case, part)
     for vb in (256, 257, 1000, -1, 2 ** 40):
         for pos in (0, 1):
             part["evals"] += 1
